@@ -147,7 +147,7 @@ func (w *Worker) runPath(it workItem) (res *PathResult) {
 	<-w.pathDone
 	w.hostWG.Wait()
 	in.res.Steps = in.steps
-	if in.res.Outcome == "end" || in.res.Outcome == "panic" || in.res.Outcome == "deadlock" {
+	if in.res.Outcome == "end" || in.res.Outcome == "panic" || in.res.Outcome == "deadlock" || in.res.Outcome == "unsupported" {
 		// a model of the whole path, for samples / for panic+deadlock counterexamples
 		func() {
 			defer func() {
@@ -166,7 +166,13 @@ func (w *Worker) runPath(it workItem) (res *PathResult) {
 			}
 			if m != nil {
 				c := &cexRec{Label: in.res.Outcome, Kind: in.res.Outcome, Values: in.snapshotModel(m), Choices: in.choiceList(), Detail: in.res.Msg, PC: in.pcString()}
-				if in.res.Outcome == "end" {
+				if in.res.Outcome == "unsupported" {
+					// inputs reaching the unsupported call: the driver may run them natively (concrete fallback)
+					in.pending = nil
+					c.Kind = "unsupported-sample"
+					in.res.Outcome, in.res.Msg = "unsupported", c.Detail
+					in.res.Cex = append(in.res.Cex, c)
+				} else if in.res.Outcome == "end" {
 					c.Reach = in.res.Reach
 					c.Observe = in.observeLog
 					in.res.Sample = c
